@@ -47,7 +47,7 @@ def oob_variants(kind):
     import math
     from pydsol.core.units import Length
     return {"int": [4, -1], "float": [3.5, -0.5, math.nan, math.inf], "quantity": [Length(11, "m"), Length(-1, "m"), Length(math.nan, "m")],
-            "list": ["z", ""], "unit": ["s", ""]}.get(kind, [])
+            "list": ["z", "", "a ", " b", "A", "a\n"], "unit": ["s", "", "m ", " km", "M", "km\n"]}.get(kind, [])     # (padded / re-cased options are not options)
 
 
 def classify(kind, value):
@@ -369,6 +369,26 @@ def run(ctx: Ctx):
         if len(ctx.violations) > 30:
             break
     ctx.traces += len(paths)
+    # re-attachment: structural operations only (construct, remove, add elsewhere), so that five steps reach "a map with a child is
+    # removed and added under another map": every node of the moved sub-tree must answer with (and to) its NEW dotted key
+    files, mod, cfg = tlc.mc_files("MC_Params", "Params", {"MaxNodes": "4", "Keys": S(["a", "b"]), "Kinds": S(["map", "int"]), "Prios": S([1]),
+                                                          "MaxSteps": "5" if q else "6", "Bounded": S(BOUNDED), "MaxPath": "2"}, invariants=INVS, properties=PROPS,
+                                   extra_defs='Structural == op.a \\in {"Init", "New", "Remove", "Move"} /\\ (op.a # "Init" => op.res = "ok")', constraints=["Structural"])
+    nodes, edges, inits, r = tlc.dump_graph(mod, cfg, extra_files=files, workers=8, timeout=900)
+    ctx.add_tlc("Params re-attachment graph (structural operations, sub-trees moved)", r)
+    paths, ncov = graphs.edge_cover(nodes, edges, inits)
+    deep_moves = 0
+    for pi, p in enumerate(paths):
+        states = [nodes[inits[0]]] + [nodes[edges[k][2]] for k in p]
+        deep_moves += sum(1 for st in states if st["op"]["a"] == "Move" and any(nd["parent"] == st["op"]["id"] and nd["alive"] for nd in st["nodes"]))
+        replay(ctx, states, f"re-attachment path {pi}")
+        ctx.evaluations += 1
+        if len(ctx.violations) > 30:
+            break
+    ctx.traces += len(paths)
+    ctx.notes["re_attachment"] = {"paths": len(paths), "moves_of_non_empty_maps": deep_moves}
+    if deep_moves == 0:
+        raise tlc.MachineryError("vacuity: no non-empty map was moved in the re-attachment graph")
     # simulation over all kinds
     files, mod, cfg = files_for(ALLK, 7, 14, keys=("a", "b"), prios=(1, 2, 3), level=20, maxpath=3)
     behs, r = tlc.simulate(mod, cfg, num=ctx.pick(600, 6000), depth=15, seed=ctx.seed + 18, extra_files=files, timeout=1800)
